@@ -103,7 +103,7 @@ func init() {
 		[]string{"\"returns exactly what it returns alone\" follows from race freedom plus C06 determinism; not checked separately"},
 		"math/big does not write its read-only arguments", "Go memory model: package initialisation happens-before any use")
 	prop("C19", "Reduce and NumDigits are exact",
-		[]string{"C04.R2", "C06.R1", "C07.R4", "C19.R3", "C19.R4", "C04.R3", "C05.R4", "C17.R3", "C16.R5"},
+		[]string{"C04.R2", "C06.R1", "C07.R4", "C19.R3", "C19.R4", "C19.R5", "C04.R3", "C05.R4", "C17.R3", "C16.R5"},
 		"Decides: no nil pointer reaches NumDigits' comparison on the >128-bit negative path; Decimal.Reduce's count reads the operand, never the destination; Context.Reduce strips after rounding and restores the operand's sign; NumDigits' positive and negative arms are mirror images over the same table entry and the table index is guarded.",
 		[]string{"that the table contents and the float estimate are right (numeric; initialisation code)"})
 	prop("C20", "Rounding modes bracket each other and rounding is monotone",
